@@ -172,6 +172,156 @@ func propC11(c *Ctx) {
 	c.Rule("R11.6", "every log is attached to the block and transaction named by its own blockNumber / transactionIndex (block_num, block_hash, tx_hash of a row are those of the log's own block)", 2)
 	checkLogsGrouping(c, "R11.6")
 
+	c.Rule("R11.7", "an indexed input is read from the topic at its own position among ALL indexed inputs of the event", 4)
+	{
+		pl := w.Fn("dig", "Integration.processLog")
+		fTopics := w.Field("eth", "Log", "Topics")
+		fTopic := w.FieldOpt("dig", "coldef", "topic")
+		dbt := w.Fn("dig", "dbtype")
+		n := 0
+		for _, call := range callsToFn(pl, dbt) {
+			// dbtype(def.Input.Type, X): X either a topic or a decoded data cell
+			s, idx, ok := elemOf(call.Call.Args[1])
+			if !ok {
+				continue
+			}
+			if f, _ := loadedField(stripConv(s)); f != fTopics {
+				continue
+			}
+			n++
+			// the definition whose type is converted
+			defRoot, _ := fieldChain(call.Call.Args[0])
+			good := false
+			if fTopic != nil {
+				iroot, ich := fieldChain(idx)
+				good = chainIs(ich, fTopic) && sameElem(iroot, defRoot)
+			}
+			c.Check("R11.7", fmt.Sprintf("processLog/topic-read#%d", n), call.Pos(), good, "the topic read for an indexed column is Topics[def.topic] of that very column definition (not a running counter over selected inputs)")
+		}
+		if n == 0 {
+			c.Violation("R11.7", "processLog/topic-reads", pl.Pos(), "no topic read found")
+		}
+		// coldef.topic is written only in setCols, from Event.topicIndex(input.Name) of the same input
+		if fTopic != nil {
+			ti := w.FnOpt("dig", "Event.topicIndex")
+			var bad []string
+			cnt := 0
+			for _, fn := range w.RepoFuncs() {
+				allInstrs(fn, func(in ssa.Instruction) {
+					st, ok := in.(*ssa.Store)
+					if !ok {
+						return
+					}
+					if f, _ := fieldOf(st.Addr); f != fTopic {
+						return
+					}
+					cnt++
+					call, isCall := st.Val.(*ssa.Call)
+					okSrc := isCall && ti != nil && staticCallee(call) == ti && fnName(fn) == "(*dig.Integration).setCols"
+					if okSrc {
+						// argument is the Name of the input stored in the same literal
+						_, ch := fieldChain(call.Call.Args[1])
+						okSrc = len(ch) > 0 && ch[len(ch)-1].Name() == "Name"
+					}
+					if !okSrc {
+						bad = append(bad, fnName(fn)+" at "+w.Pos(st.Pos()))
+					}
+				})
+			}
+			c.Check("R11.7", "coldef.topic/from-topicIndex", sc.Pos(), cnt > 0 && len(bad) == 0, fmt.Sprintf("coldef.topic is stored only in setCols from Event.topicIndex(input.Name); offenders: %v", bad))
+			if ti != nil {
+				// topicIndex: ranges over e.Inputs (all of them), the counter starts at 1 and is incremented exactly for Indexed inputs,
+				// and the returned value on a name match is that counter
+				fInputs := w.Field("dig", "Event", "Inputs")
+				fIndexed := w.Field("dig", "Input", "Indexed")
+				startsAt1, incIndexed, overAll := false, false, false
+				allInstrs(ti, func(in ssa.Instruction) {
+					switch x := in.(type) {
+					case *ssa.Phi:
+						if !isIntType(x.Type()) {
+							return
+						}
+						for _, e := range x.Edges {
+							if k, ok := constInt(e); ok {
+								if _, isC := e.(*ssa.Const); isC && k == 1 {
+									startsAt1 = true
+								}
+							}
+						}
+					case *ssa.BinOp:
+						if x.Op != token.ADD {
+							return
+						}
+						if k, ok := constInt(x.Y); !ok || k != 1 {
+							return
+						}
+						if ph, isPhi := x.X.(*ssa.Phi); !isPhi || isInduction(ph) && false {
+							return
+						}
+						for _, col := range loopCollections(x) {
+							if _, ch := fieldChain(col); len(ch) == 1 && ch[0] == fInputs {
+								overAll = true
+							}
+						}
+						// executed only for indexed inputs: skipped on the !Indexed edge
+						var idxT []Edge
+						allInstrs(ti, func(y ssa.Instruction) {
+							if v, ok := y.(ssa.Value); ok {
+								if _, ch := fieldChain(v); len(ch) == 1 && ch[0] == fIndexed {
+									if _, isLoad := v.(*ssa.UnOp); isLoad {
+										t, _ := boolEdges(v)
+										idxT = append(idxT, t...)
+									}
+								}
+							}
+						})
+						isRangeIdx := false
+						if ph, ok := x.X.(*ssa.Phi); ok {
+							for _, e := range ph.Edges {
+								if k, ok := constInt(e); ok && k == -1 {
+									isRangeIdx = true
+								}
+							}
+						}
+						if len(idxT) > 0 && guardedByEdges(ti, x, idxT) && !isRangeIdx {
+							incIndexed = true
+							// ... and for EVERY indexed input that is not the one looked for: no other condition
+							for d := x.Block().Idom(); d != nil; d = d.Idom() {
+								iff, ok := terminator(d).(*ssa.If)
+								if !ok {
+									continue
+								}
+								okCond := false
+								if bo, ok := iff.Cond.(*ssa.BinOp); ok {
+									if bo.Op == token.LSS && isInduction(bo.X) {
+										okCond = true // loop condition
+									}
+									if bo.Op == token.EQL || bo.Op == token.NEQ {
+										_, c1 := fieldChain(bo.X)
+										if len(c1) == 1 && c1[0].Name() == "Name" {
+											okCond = true // the name match that returns
+										}
+									}
+								}
+								if _, ch := fieldChain(iff.Cond); len(ch) == 1 && ch[0] == fIndexed {
+									okCond = true
+								}
+								if !okCond {
+									incIndexed = false
+								}
+							}
+						}
+					}
+				})
+				c.Check("R11.7", "Event.topicIndex/counts-all-indexed-inputs", ti.Pos(), startsAt1 && incIndexed && overAll, fmt.Sprintf("position counter starts at 1 (%v), is incremented for Indexed inputs only (%v), over all of e.Inputs (%v)", startsAt1, incIndexed, overAll))
+			} else {
+				c.Violation("R11.7", "Event.topicIndex", sc.Pos(), "Event.topicIndex not found")
+			}
+		} else {
+			c.Violation("R11.7", "coldef.topic", sc.Pos(), "column definitions do not record the topic position of an indexed input")
+		}
+	}
+
 	// ---- R11.2 ----------------------------------------------------------
 	c.Rule("R11.2", "the field selector is injective: no two names return the same field path", 20)
 	byPath := map[string][]string{}
